@@ -18,6 +18,7 @@
 package c03
 
 import (
+	"sync"
 	"bytes"
 	"encoding/json"
 	"errors"
@@ -69,13 +70,71 @@ func loadModule(name string) (starlark.StringDict, error) {
 		d := starlark.StringDict{"a": starlark.MakeInt(11), "b": starlark.NewList([]starlark.Value{starlark.MakeInt(12)}), "ab": starlark.String("cc"), "aaa": starlark.None}
 		d.Freeze()
 		return d, nil
+	case "lib":
+		// a module with functions, compiled and executed once per process and
+		// then shared (frozen) by every thread that loads it
+		libOnce.Do(func() {
+			th := &starlark.Thread{Name: "lib"}
+			libGlobals, libErr = starlark.ExecFileOptions(threadOpts, th, "lib.star", libSrc, nil)
+		})
+		return libGlobals, libErr
 	}
 	return nil, fmt.Errorf("no such module %q", name)
 }
 
+const libSrc = `
+def inc(x):
+    return x + 1
+def apply(f, x):
+    return f(x)
+def tot(xs):
+    n = 0
+    for x in xs:
+        n += inc(x)
+    return n
+def mk(n):
+    def add(x):
+        return x + n
+    return add
+add5 = mk(5)
+`
+
+var (
+	libOnce    sync.Once
+	libGlobals starlark.StringDict
+	libErr     error
+)
+
 // execute runs src once on a fresh thread; hook (optional) is the
 // per-instruction seam.
 func execute(src string, hook func()) (tr transcript) {
+	return executeWith(src, nil, hook)
+}
+
+// threadOpts is the dialect of the thread sub-check: recursion is off (the
+// default), so every call runs the dynamic recursion check over state that
+// threads sharing compiled code could interfere through.
+var threadOpts = &syntax.FileOptions{Set: true, While: true, TopLevelControl: true, GlobalReassign: true}
+
+// compileShared compiles src once, for all threads of a schedule to initialise.
+func compileShared(src string) *starlark.Program {
+	isPre := func(name string) bool {
+		switch name {
+		case "struct", "json", "math", "time", "mk", "t":
+			return true
+		}
+		return false
+	}
+	_, p, err := starlark.SourceProgramOptions(threadOpts, "p.star", src, isPre)
+	if err != nil {
+		return nil
+	}
+	return p
+}
+
+// executeWith runs src (or, if shared is non-nil, that compiled program) once
+// on a fresh thread.
+func executeWith(src string, shared *starlark.Program, hook func()) (tr transcript) {
 	th := &starlark.Thread{Name: "c03"}
 	th.Print = func(_ *starlark.Thread, msg string) { tr.Out = append(tr.Out, "print:"+msg) }
 	th.Load = func(_ *starlark.Thread, module string) (starlark.StringDict, error) { return loadModule(module) }
@@ -111,7 +170,13 @@ func execute(src string, hook func()) (tr transcript) {
 			tr.Err = fmt.Sprintf("PANIC: %v", r)
 		}
 	}()
-	g, err := starlark.ExecFileOptions(fileOpts, th, "p.star", src, pre)
+	var g starlark.StringDict
+	var err error
+	if shared != nil {
+		g, err = shared.Init(th, pre)
+	} else {
+		g, err = starlark.ExecFileOptions(fileOpts, th, "p.star", src, pre)
+	}
 	tr.Steps = th.ExecutionSteps()
 	names := g.Keys()
 	vals := make([]starlark.Value, len(names))
@@ -378,7 +443,13 @@ func checkHistory(src string, st *fw.Stats, report func(k kase, what string)) {
 // (d) threads
 
 func checkThreads(c *fw.Ctx, src string, n, bound int, st *fw.Stats, report func(k kase, what string)) {
-	solo := execute(src, func() {})
+	// The threads share one compiled program (and, through load, one frozen
+	// module with functions), as hosts that cache compiled files do.
+	shared := compileShared(src)
+	if shared == nil {
+		st.Count("thread_programs_compiled_per_thread(static error under the default dialect)", 1)
+	}
+	solo := executeWith(src, shared, func() {})
 	st.Evals++
 	// keep the number of schedules tractable: long programs get a smaller bound
 	limit := uint64(90)
@@ -395,7 +466,7 @@ func checkThreads(c *fw.Ctx, src string, n, bound int, st *fw.Stats, report func
 	run := func(prefix []int) *sched.Execution {
 		trs := make([]transcript, n)
 		x, err := sched.Run(n, prefix, func(id int, yield func()) {
-			trs[id] = execute(src, yield)
+			trs[id] = executeWith(src, shared, yield)
 		})
 		if err != nil {
 			fw.Fatal("c03 scheduler: %v", err)
